@@ -3777,4 +3777,61 @@ example : (match absVal false (fuelOf exU.heap) exU.heap (.ref 4), absVal false 
       some (.node true [("k", .node true [("a", .leaf (.atom 1))])]) => true
     | _, _ => false) = true := by decide
 
+/-! ## `struct.field`: the data / static partition follows each field's own flag, whatever metadata dicts are shared -/
+
+private theorem metaGet_metaSet_same (m : Struct.Meta) (key : String) (v : Int) :
+    Struct.metaGet (Struct.metaSet m key v) key = some v := by
+  induction m with
+  | nil => simp [Struct.metaSet, Struct.metaGet]
+  | cons q r ih =>
+    obtain ⟨k, x⟩ := q
+    simp only [Struct.metaSet]
+    split
+    · rename_i hk; simp [Struct.metaGet, hk]
+    · rename_i hk; simp [Struct.metaGet, hk, ih]
+
+private theorem metaGet_metaSet_other (m : Struct.Meta) (key other : String) (v : Int) (hne : other ≠ key) :
+    Struct.metaGet (Struct.metaSet m key v) other = Struct.metaGet m other := by
+  induction m with
+  | nil => simp [Struct.metaSet, Struct.metaGet, Ne.symm hne]
+  | cons q r ih =>
+    obtain ⟨k, x⟩ := q
+    simp only [Struct.metaSet]
+    split
+    · rename_i hk
+      simp only [Struct.metaGet]
+      have : ¬ k = other := by rw [hk]; exact Ne.symm hne
+      simp [this]
+    · simp only [Struct.metaGet, ih]
+
+/-- **The partition into leaves and static fields is by each field's own `pytree_node` argument only**:
+independent of which metadata dict objects the caller passed, of whether one dict object is shared by
+several fields with different flags, and of any stale `'pytree_node'` entry in those dicts. -/
+theorem declare_by_flag_only (store : List Struct.Meta) (fs : List Struct.FieldSpec) :
+    Struct.declare store fs = fs.map (fun f => (f.name, f.node)) := by
+  simp only [Struct.declare]
+  refine List.map_congr_left ?_
+  intro f _
+  simp only [Struct.metaFlag, Struct.fieldMeta, metaGet_metaSet_same]
+  cases f.node <;> simp
+
+/-- the caller's other metadata entries reach the field unchanged (and the caller's dict is not an output
+of `declare` at all: nothing writes to it) -/
+theorem fieldMeta_keeps_user_entries (store : List Struct.Meta) (f : Struct.FieldSpec) (key : String)
+    (hne : key ≠ "pytree_node") :
+    Struct.metaGet (Struct.fieldMeta store f) key = Struct.metaGet (Struct.callerMeta store f.metaId) key := by
+  simp only [Struct.fieldMeta]
+  exact metaGet_metaSet_other _ _ _ _ hne
+
+/-- counter-example for a `field` that writes into the caller's dict (`declareMutatingOrig`, not the
+model's behaviour): one dict shared by a data field and a static field — the last flag wins for both,
+and the caller's dict has changed -/
+theorem mutating_field_counterexample :
+    (Struct.declareMutatingOrig [[("units", 7)]] [⟨"origin", true, some 0⟩, ⟨"size", false, some 0⟩]).2
+      = [("origin", false), ("size", false)] ∧
+    (Struct.declareMutatingOrig [[("units", 7)]] [⟨"origin", true, some 0⟩, ⟨"size", false, some 0⟩]).1
+      ≠ [[("units", 7)]] ∧
+    Struct.declare [[("units", 7)]] [⟨"origin", true, some 0⟩, ⟨"size", false, some 0⟩]
+      = [("origin", true), ("size", false)] := by decide
+
 end Flax.C15
